@@ -308,10 +308,9 @@ theorem zeroing_asWritten_loses_first_payload (hp : p.WF) (f : LogFile) (e : Ent
 def ent (t i : Nat) (d : List UInt8) : Entry := ⟨t, i, 0, ⟨d.toArray⟩⟩
 
 theorem ent_ok (t i : Nat) (d : List UInt8) (h1 : t < 100) (h2 : 1 ≤ i ∧ i < 100) (h3 : d.length < 20) :
-    (ent t i d).OK ∧ (ent t i d).Fits p0 := by
+    (ent t i d).OK := by
   have hs : (ent t i d).data.size = d.length := by simp [ent, ByteArray.size]
-  refine ⟨⟨by simp [ent]; omega, by simp [ent]; omega, by simp [ent]; omega, by simp [ent], by rw [hs]; omega⟩, ?_⟩
-  simp only [Entry.Fits, hs, p0]; omega
+  exact ⟨by simp [ent]; omega, by simp [ent]; omega, by simp [ent]; omega, by simp [ent], by rw [hs]; omega⟩
 
 /-- three entries into the empty store (the third rolls into a second file) … -/
 def save1 : List Entry := [ent 1 1 [7], ent 1 2 [8, 9], ent 1 3 []]
